@@ -12,6 +12,7 @@ import (
 	"strings"
 	"sync"
 	"sync/atomic"
+	"syscall"
 	"time"
 )
 
@@ -115,7 +116,15 @@ func newSolver(bin []string, timeout time.Duration) *solver {
 }
 
 func (s *solver) start() {
-	cmd := exec.Command(s.bin[0], s.bin[1:]...)
+	args := append([]string{}, s.bin[1:]...)
+	if strings.Contains(s.bin[0], "z3") {
+		// a query that blows up must end as "unknown" (solver error or exit, both handled by
+		// readVerdict), not take the machine's memory with it
+		args = append(args, "-memory:3000")
+	}
+	cmd := exec.Command(s.bin[0], args...)
+	// a solver never outlives its engine (also not when the engine is killed)
+	cmd.SysProcAttr = &syscall.SysProcAttr{Pdeathsig: syscall.SIGKILL}
 	in, _ := cmd.StdinPipe()
 	outp, _ := cmd.StdoutPipe()
 	cmd.Stderr = os.Stderr
